@@ -92,6 +92,9 @@ var c19Faults = []struct {
 	{"if without a condition", "{if}", true},
 	{"unexpected token in expression", "{$a + }", true},
 	{"bad number", "{12abc}", true},
+	{"error inside a quoted attribute expression", "{call .other data=\"$a +\" /}", true},
+	{"error inside a css expression", "{css $a +, base}", true},
+	{"error inside a quoted param value", "{call .other}{param key=\"p\" value=\"1 +\" /}{/call}", true},
 	{"unterminated string", "{'never closed}", false},
 	{"unterminated block comment", "/* never closed", false},
 	{"unterminated tag", "{if $a", false},
